@@ -1,9 +1,12 @@
 import PyXABModel.Drv.Util
+import PyXABModel.Drv.TreeBandit
 namespace PyXAB.Drv
 
 inductive DState where
   | none
   | part (P : Part Float Unit)
+  | hoo (d : HooD)
+  | hct (d : HctD)
 
 def runRd {β} (r : Rd β) (toks : List String) : Except String β :=
   match r.run toks with
@@ -35,12 +38,28 @@ def partStep (st : DState) (cmd : String) (args : List String) : DState × Strin
   | "P.dump", .part P => (st, dumpPart P (fun _ => ""))
   | _, _ => (st, "bad-op")
 
+def algoStep (st : DState) (cmd : String) (args : List String) : DState × String :=
+  match cmd, st with
+  | "HOO.init", _ =>
+    match hooInit args with
+    | .ok (.ok d) => (.hoo d, "ok")
+    | .ok (.error e) => (.none, s!"ERR {errName e}")
+    | .error e => (.none, s!"bad-op {e}")
+  | "HCT.init", _ =>
+    match hctInit args with
+    | .ok (.ok d, note) => (.hct d, note)
+    | .ok (.error e, _) => (.none, s!"ERR {errName e}")
+    | .error e => (.none, s!"bad-op {e}")
+  | _, .hoo d => let (d', o) := hooStep d cmd args; (.hoo d', o)
+  | _, .hct d => let (d', o) := hctStep d cmd args; (.hct d', o)
+  | _, _ => (st, "bad-op no-state")
+
 def step (st : DState) (line : String) : DState × String :=
   match (line.trimAscii.toString.splitOn " ").filter (· ≠ "") with
   | [] => (st, "")
   | "case" :: rest => (.none, "case " ++ " ".intercalate rest)
   | cmd :: args =>
-    if cmd.startsWith "P." then partStep st cmd args else (st, "bad-op")
+    if cmd.startsWith "P." then partStep st cmd args else algoStep st cmd args
 
 partial def loop (h : IO.FS.Stream) (out : IO.FS.Stream) (st : DState) : IO Unit := do
   let line ← h.getLine
